@@ -217,6 +217,13 @@ bool QXmppRegistrationManager::handleStanza(const QDomElement &stanza)
     }
 
     if (stanza.tagName() == u"iq") {
+        // Only responses from the registration service are processed here. Requests must not be
+        // swallowed: the client answers unhandled IQ requests with an error (RFC 6120, 8.2.3).
+        const auto iqType = stanza.attribute(u"type"_s);
+        if (iqType == u"get" || iqType == u"set") {
+            return false;
+        }
+
         const QString &id = stanza.attribute(u"id"_s);
 
         if (!id.isEmpty() && id == d->registrationIqId) {
